@@ -21,8 +21,8 @@ static std::vector<std::string> scenario_args(int sc, const std::string& wd) {
                                "--PhaseSpaceShiftY", "-2.5", "--RenormalizeCharge", "5", "--FPType", "1", "--FPTrack", "2", "--derivation", "3", "--InterpolationPoints", "3", "--alpha1", "1.5e-4", "--alpha2", "-2.5e-5",
                                "--SavePhaseSpace", "3", "--CutoffFreq", "2.5e10", "--WallConductivity", "3.5e7", "--WallSusceptibility", "0.25", "--CollimatorRadius", "0.004", "--UseCSR", "false", "--LinearRF", "false",
                                "--RFAmplitudeSpread", "1e-4", "--RFPhaseSpread", "0.25", "--RFPhaseModAmplitude", "1.5", "--RFPhaseModFrequency", "9000", "--InitialDistZoom", "1.25", "--StepsPerRevolution", "0",
-                               "--verbose", "true"}); break;
-    case 2: { std::ofstream f(cfg); f << "BunchCurrent=1.2345678e-3\nBunchCurrent=2.5e-3\nalpha0=3.3e-3\nStepsPerTs=640\nAcceleratingVoltage=1.1e6\nGridSize=32\nrotations=0.5\noutstep=10\nVacuumGap=-0.02\nDampingTime=0.02\n";
+                               "--verbose", "true", "--InitialDistStep", "7", "--InterpolateClamped", "true"}); break;
+    case 2: { std::ofstream f(cfg); f << "BunchCurrent=1.2345678e-3\nBunchCurrent=2.5e-3\nalpha0=3.3e-3\nStepsPerTs=640\nAcceleratingVoltage=1.1e6\nGridSize=32\nInitialDistStep=-2\nrotations=0.5\noutstep=10\nVacuumGap=-0.02\nDampingTime=0.02\n";
               a.insert(a.end(), {"--gui", "false", "-c", cfg, "-o", wd + "/out.h5"}); } break;                       // canonical names in a parent config, alpha0 (no f_s)
     case 3: { std::ofstream f(cfg); f << "steps=555\nRFVoltage=1.5e6\nSyncFreq=7100\nBunchCurrent=2.3456789e-3\nGridSize=32\n";
               a.insert(a.end(), {"--gui", "false", "-c", cfg, "-o", wd + "/out.h5"}); } break;                       // legacy aliases in a parent config
